@@ -33,7 +33,7 @@ macro_rules! ent {
 }
 ent! {
 	c07q_ent_u8: u8, 0, 4, 5; c07q_ent_u32: u32, 0, 8, 7; c07q_ent_u128: u128, 0, 20, 19; c07q_ent_i64: i64, 0, 12, 11; c07q_ent_f64: f64, 0, 12, 11; c07q_ent_bool: bool, 0, 4, 5;
-	c07q_ent_unit: (), 0, 4, 5; c07q_ent_compact_u32: Compact<u32>, 0, 20, 19; c07q_ent_compact_u128: Compact<u128>, 0, 20, 19; c07q_ent_compact_unit: Compact<()>, 0, 4, 5;
+	c07q_ent_unit: (), 0, 4, 5; c07q_ent_compact_u32: Compact<u32>, 0, 20, 19; c07q_ent_compact_unit: Compact<()>, 0, 4, 5;
 	c07q_ent_nz_u32: NonZeroU32, 0, 8, 7; c07q_ent_nz_i16: NonZeroI16, 0, 4, 5; c07q_ent_optionbool: OptionBool, 0, 4, 5; c07q_ent_duration: core::time::Duration, 0, 16, 15;
 	c07q_ent_range: core::ops::Range<u16>, 0, 8, 7; c07q_ent_opt: Option<u32>, 0, 8, 8; c07q_ent_res: Result<u8, u16>, 0, 8, 6;
 	c07q_ent_tup1: (u16,), 0, 4, 5; c07q_ent_tup1_vec: (Vec<u8>,), 2, 8, 7; c07q_ent_tup2: (u8, Compact<u16>), 0, 20, 19;
@@ -41,11 +41,41 @@ ent! {
 	c07q_ent_vec_u8_2: Vec<u8>, 2, 8, 7; c07q_ent_vec_u16_2: Vec<u16>, 2, 8, 8; c07q_ent_vec_opt_2: Vec<Option<u8>>, 2, 8, 8; c07q_ent_deque_2: VecDeque<u16>, 2, 8, 8;
 	c07q_ent_list_2: LinkedList<u8>, 2, 8, 7; c07q_ent_string_2: String, 2, 8, 7; c07q_ent_box: Box<u32>, 0, 8, 7; c07q_ent_rc_vec: Rc<Vec<u8>>, 2, 8, 7; c07q_ent_arc: Arc<Option<u8>>, 0, 4, 5;
 	c07t_ent_u16: u16, 0, 4, 5; c07t_ent_u64: u64, 0, 12, 11; c07t_ent_i8: i8, 0, 4, 5; c07t_ent_i128: i128, 0, 20, 19; c07t_ent_f32: f32, 0, 8, 7;
-	c07t_ent_compact_u8: Compact<u8>, 0, 20, 19; c07t_ent_compact_u16: Compact<u16>, 0, 20, 19; c07t_ent_compact_u64: Compact<u64>, 0, 20, 19;
+	c07t_ent_compact_u8: Compact<u8>, 0, 20, 19; c07t_ent_compact_u16: Compact<u16>, 0, 20, 19;
 	c07t_ent_nz_u128: NonZeroU128, 0, 20, 19; c07t_ent_phantom: core::marker::PhantomData<u8>, 0, 4, 5; c07t_ent_range_incl: core::ops::RangeInclusive<u16>, 0, 8, 7;
 	c07t_ent_tup18: (u8, u8, u8, u8, u8, u8, u8, u8, u8, u8, u8, u8, u8, u8, u8, u8, u8, u8), 0, 20, 21; c07t_ent_vec_vec: Vec<Vec<u8>>, 2, 8, 8;
 	c07t_ent_map_1: BTreeMap<u8, u8>, 1, 8, 7; c07t_ent_heap_2: BinaryHeap<u8>, 2, 8, 7; c07t_ent_vec_u32_2: Vec<u32>, 2, 12, 12; c07t_ent_vec_unit: Vec<()>, 3, 4, 6;
 }
+/// wide compacts: one query per encoded length K (a symbolic `Vec::with_capacity(size_hint)` is what makes
+/// the unsplit query intractable; the split is over the value's length class, contents stay symbolic)
+fn h_entry_compact<T: Copy + Into<u128>, const K: usize>(v: T) where Compact<T>: Encode {
+	kani::assume(compact(v.into()).1 == K);
+	let c = Compact(v);
+	let mut a = Buf::<20>::new();
+	c.encode_to(&mut a);
+	assert!(a.n == K);
+	let b = c.encode();
+	assert!(same_slice(&b, a.bytes()), "encode() differs from encode_to");
+	let mut cvec: Vec<u8> = Vec::with_capacity(20);
+	c.encode_to(&mut cvec);
+	assert!(same_slice(&cvec, a.bytes()), "encode_to(Vec) differs");
+	let mut d = Buf::<20>::new();
+	through_dyn(&c, &mut d);
+	assert!(same_bytes(&a, &d), "encode_to(dyn Output) differs");
+	assert!(c.using_encoded(|s| same_slice(s, a.bytes())), "using_encoded differs");
+	assert!(c.encoded_size() == K && c.size_hint() == K, "encoded_size / size_hint differ from the produced length");
+	core::mem::forget((b, cvec));
+}
+macro_rules! entc {
+	($($name:ident: $t:ty, $k:literal;)*) => {$(
+		#[kani::proof] #[kani::unwind(19)] pub fn $name() { let v: $t = kani::any(); h_entry_compact::<$t, $k>(v) }
+	)*};
+}
+entc! {
+	c07q_entc_u64_1: u64, 1; c07q_entc_u64_4: u64, 4; c07q_entc_u64_5: u64, 5; c07q_entc_u64_9: u64, 9; c07q_entc_u128_17: u128, 17; c07q_entc_u128_11: u128, 11;
+	c07t_entc_u64_2: u64, 2; c07t_entc_u64_6: u64, 6; c07t_entc_u64_7: u64, 7; c07t_entc_u64_8: u64, 8; c07t_entc_u128_5: u128, 5; c07t_entc_u128_9: u128, 9; c07t_entc_u128_13: u128, 13;
+}
+
 /// str / [T] (unsized, override all methods)
 #[kani::proof]
 #[kani::unwind(8)]
